@@ -562,16 +562,33 @@ class C19(Spec):
 
     def extra_stages(self, rep, tier, rng, broken):
         rep.cov["program_model_and_contract_proofs"] = ["theta_update_sketch_base (update_tuple_sketch)",
+                                                        "kll_sketch + kll_helper",
                                                         "reverse_purge_hash_map + frequent_items_sketch"]
-        rep.cov["program_model_tied_by_correspondence_contracts_pending"] = ["kll_sketch + kll_helper"]
         rep.cov["modelled_not_verified_monitored_only"] = MONITORED_NAMES
 
 
 SPEC = C19()
 
 CLAIM = dict(
-    text=("Kernel-checked theorems over ALL lifecycle histories of a heap calculus (blocks, slot states raw/live/moved-from, primitives "
-          "with preconditions) in which the special members and mutators of the hand-managed classes are written as programs."),
-    note=("Partial by nature: what is proved is the bookkeeping that decides which raw slots are alive and which blocks an object owns."),
-    technique="Lean 4 heap calculus + invariant proofs + per-operation correspondence with a tracking allocator / instrumented item type",
+    text=("Kernel-checked theorems over ALL lifecycle histories (construct / update / merge by reference and by move / copy / move / "
+          "copy- and move-assign incl. self / query / serialize / deserialize / trim / reset / destroy, any number of live objects of "
+          "the three classes mixed in one heap, all parameters, values, coins, hash functions) of a heap calculus (blocks of cells: raw "
+          "| live | moved-from, primitives with checked preconditions) in which the special members and mutators of the theta/tuple "
+          "hash table, kll_sketch + kll_helper and the frequent-items reverse_purge_hash_map are written line by line: no primitive "
+          "is ever applied outside its precondition (no double destroy, construct over a live object, read of a raw/moved-from slot, "
+          "release with a wrong size or with live objects, null/dangling access), after every operation the non-raw slots are exactly "
+          "those implied by the counters, live objects own disjoint blocks and every block has an owner, copy yields a fresh block "
+          "with equal keys and liveness, move hands the blocks over and leaves a source that may be destroyed or assigned to, and "
+          "destroying all objects empties the heap; plus a per-operation tie of those programs to the real headers (tracking "
+          "allocator + instrumented item type: blocks allocated/freed with sizes, constructor/destructor calls inside blocks, slot "
+          "states of every live block, items outside blocks), plus the property oracle on every implementation trace."),
+    note=("Partial by nature: what is proved is the bookkeeping that decides which raw slots are alive and which blocks an object "
+          "owns, for three classes. Not claimed: anything after the modelled code throws (exception safety; that the internal "
+          "logic_error throws are unreachable is not proved), allocator instances (the model has one heap; propagation of stateful "
+          "allocators is only monitored), std::vector/std::optional/std::string internals, and every class without a program model "
+          "(REQ, classic quantiles, VarOpt, EBPPS, HLL, CPC, Bloom, count-min, t-digest, density, compact/union objects): these are "
+          "MONITORED only (ledger balance, size and allocator-instance match on release, item lifetimes, byte images of copies, "
+          "ASan/LSan/UBSan) on sampled histories - modelled-not-verified. Open known findings: see known_findings.json (C19)."),
+    technique="Lean 4 heap calculus + Hoare-style contracts with frames + world invariant by induction over histories; differential "
+              "correspondence per operation (tracking allocator, instrumented items, sanitizers); trace oracle",
     design="DESIGN.md §3 C19")
